@@ -365,6 +365,18 @@ def writeToFile (f : CsvFmt) (geo : Bool) (pf : List Tok) (h : Nat) (naf : Nat) 
   let ls ← rows.mapM (fun ra => writeRow f geo pf O ra.1 ra.2)
   pure ((hdr ++ ls).map (· ++ ['\n'])).flatten
 
+/-- `TrackWriter.writeToCsv(track, path, track_format)`: `writeToFile` with the column ids, separator and `header` of the
+TrackFormat; `track_format.af_names` is always empty (TrackFormat never fills it), so no feature column is written -/
+def writeToCsv (f : CsvFmt) (geo : Bool) (pf : List Tok) (header : Nat) (rows : List Row) (srid : Str := "ENU".toList) :
+    Except String Str :=
+  writeToFile f geo pf header 0 (rows.map (fun r => (r, []))) srid []
+
+/-- `TrackWriter.writeToCsv(collection, dir, track_format)` = `writeToFiles`: one file `track_output_<i>.csv` per track, each
+written by `writeToFile` with the same arguments -/
+def writeToCsvColl (f : CsvFmt) (geo : Bool) (pf : List Tok) (header : Nat) (tracks : List (List Row)) (srid : Str := "ENU".toList) :
+    Except String (List Str) :=
+  tracks.mapM (fun rows => writeToCsv f geo pf header rows srid)
+
 /-- the lines of a text as `readline()` delivers them, without their newline (an empty element is
 an empty line inside the file; the end of the list is end of file) -/
 def fileLines (s : Str) : List Str :=
@@ -586,13 +598,9 @@ def readCsvAll (f : CsvFmt) (rf : List Tok) (header : Nat) (text : Str) :
 /-- a planimetric vertex on the lattice -/
 abbrev Pt := Int × Int
 
-/-- `Track.toWKT()` for an ENU or Geo track whose coordinates are `n / 10^d` -/
+/-- `Track.toWKT()` for an ENU, Geo or ECEF track whose first two coordinates (E N / lon lat / X Y) are `n / 10^d` -/
 def toWKT (d : Nat) (pts : List Pt) : Str :=
   "LINESTRING(".toList ++ joinChar ',' (pts.map (fun p => reprDec d p.1 ++ [' '] ++ reprDec d p.2)) ++ [')']
-
-/-- `Track.toWKT()` for an ECEF track of `n` points: neither branch of the SRID test applies, so no coordinate is written,
-only the commas -/
-def toWKTEcef (n : Nat) : Str := "LINESTRING(".toList ++ List.replicate (n - 1) ',' ++ [')']
 
 /-- the vertex loop shared by `parseWkt` and `wktLineStringToObs`: `strip().split(" ")`, `float` of
 the first two (and of a third when there are exactly three) items -/
@@ -796,6 +804,7 @@ structure GState where
   pos : Option (Dec × Dec × Dec) := none
   tps : Option Stamp := none
   tracks : List (List RRow) := []
+  inExt : Bool := false
 
 def appendLast (ts : List (List RRow)) (r : RRow) : Except String (List (List RRow)) :=
   match ts.reverse with
@@ -848,8 +857,12 @@ def gpxTime (rf : List Tok) (st : GState) (line : Str) : Except String GState :=
     | none => throw "value"
   else pure st
 
-/-- one line of the `trk` scanner of `__readFromGpx` -/
-def gpxLine (rf : List Tok) (geo : Bool) (st : GState) (line : Str) : Except String GState := do
+/-- one line of the `trk` scanner of `__readFromGpx`: the lines from `<extensions>` to `</extensions>` (both included) are
+skipped; the others go through the tag tests -/
+def gpxLine (rf : List Tok) (geo : Bool) (st0 : GState) (line : Str) : Except String GState := do
+  let st := if isInfix "<extensions>".toList line then { st0 with inExt := true } else st0
+  if st.inExt then
+    return (if isInfix "</extensions>".toList line then { st with inExt := false } else st)
   let st1 := if isInfix "<trk>".toList line then
       { st with inTrk := true, inPt := false, tracks := st.tracks ++ [[]] } else st
   let st2 := if isInfix "</trk>".toList line then { st1 with inTrk := false } else st1
